@@ -25,12 +25,16 @@ P_DroppedWithinThree(o) == \A i \in 1..Len(o.dropped) : \A k \in Unanswered(o, o
 \* monitoring stops with the connection / with dilation; never more than one timer
 P_NoTimerWithoutConn(o) == \A s \in Snaps(o) : (s.conn = 0 \/ s.stopped) => s.timer = 0
 P_OneTimer(o) == o.maxTimers <= 1
+\* ... and resumes on the next connection: while a connection is in use (not stopped, not yet given up on by the
+\* monitor) the interval timer is running
+DroppedConns(o) == {o.dropped[i].conn : i \in 1..Len(o.dropped)}
+P_Monitored(o) == \A s \in Snaps(o) : (s.conn > 0 /\ ~s.stopped /\ s.conn \notin DroppedConns(o)) => s.timer > 0
 P_NoInternal(o) == o.internal = <<>>
 
 VARIABLE k
 Init == k = 0
 Next == k < Len(All) /\ k' = k + 1
         /\ PrintT(<<"OBS", All[k'].tid, <<P_ResponsiveNeverDropped(All[k']), P_SilentDropped(All[k']), P_DroppedWithinThree(All[k']),
-                                          P_NoTimerWithoutConn(All[k']), P_OneTimer(All[k']), P_NoInternal(All[k'])>>>>)
+                                          P_NoTimerWithoutConn(All[k']), P_OneTimer(All[k']), P_NoInternal(All[k']), P_Monitored(All[k'])>>>>)
 Spec == Init /\ [][Next]_k
 ====
